@@ -154,7 +154,7 @@ func gen(t *rapid.T) *Case {
 			c.Vals2 = genVals(t, n, "w")
 		}
 		if rapid.Bool().Draw(t, "cross-form") {
-			forms := []string{"device", "xml", "client-typed", "client-string"}
+			forms := []string{"device", "xml", "client-typed", "client-string", "notif-proto"}
 			c.EqForms = []string{rapid.SampledFrom(forms).Draw(t, "form-a"), rapid.SampledFrom(forms).Draw(t, "form-b")}
 		}
 	}
@@ -611,6 +611,24 @@ func execEqual(ctx context.Context, n *vlib.Node, c *Case) *vlib.Failure {
 	// the same, through the converter of the given input form
 	convForm := func(form string, vals []string, pad bool) (*sdcpb.TypedValue, error) {
 		switch form {
+		case "notif-proto":
+			// the value as a gNMI device reports it in proto encoding, through the conversion of the sync loop
+			g := nativeGNMI(n, vals)
+			if g == nil {
+				return conv(vals, pad)
+			}
+			path := vlib.P("types", n.Name)
+			scb := schemaClient.NewSchemaClientBound(vlib.SchemaRef(), vlib.MustEnv().SchemaClient)
+			nn, err := utils.NewConverter(scb).ConvertNotificationTypedValues(ctx, &sdcpb.Notification{Update: []*sdcpb.Update{{Path: path.Sdcpb(), Value: utils.FromGNMITypedValue(g)}}})
+			if err != nil {
+				return nil, err
+			}
+			for _, u := range nn.GetUpdate() {
+				if vlib.FromSdcpb(u.GetPath()).Canon() == path.Canon() {
+					return u.GetValue(), nil
+				}
+			}
+			return nil, fmt.Errorf("no value in the converted notification")
 		case "xml":
 			if n.Kind != vlib.KLeaf || n.Type == "empty" {
 				return conv(vals, pad)
